@@ -35,7 +35,7 @@ func genConc(g *G, prog *Program, kinds []string, maxWorkers, maxOps int) {
 func c09Profile() *Profile {
 	return &Profile{
 		Property: "C09", MaxOps: 6,
-		W: map[string]int{"insert": 8, "update": 2, "delete": 1, "many": 1},
+		W:          map[string]int{"insert": 8, "update": 2, "delete": 1, "many": 1},
 		AllowCache: true, AllowCompress: true, AllowAsync: true,
 		MaxIndexed: 3, MaxUnique: 1, TinyBias: 70, BigBias: 5, MaxLeaves: 2,
 	}
